@@ -580,8 +580,9 @@ int main(int argc, char **argv)
     std::vector<int> cur;
     long long cR = 0, cP = 0;
     enumerate(alphaR, depth, cur, SimState(), cR);
-    enumerate(alphaP, depth, cur, SimState(), cP);
-    stat("exhaustive_depth", depth);
+    enumerate(alphaP, depth + 1, cur, SimState(), cP);   // smaller alphabet: one level deeper
+    stat("exhaustive_depth_roster", depth);
+    stat("exhaustive_depth_presence", depth + 1);
     stat("exhaustive_alphabet_roster", (long long)alphaR.size());
     stat("exhaustive_alphabet_presence", (long long)alphaP.size());
     stat("exhaustive_legal_sequences_roster", cR);
@@ -608,7 +609,7 @@ int main(int argc, char **argv)
         }
         return v;
     };
-    int nrand = thorough ? 30000 : 2500;
+    int nrand = thorough ? 60000 : 4000;
     if (a.mode == "tiny") nrand = 20;
     int pid = 0;
     for (int n = 0; n < nrand; n++) {
